@@ -523,7 +523,7 @@ func (c *Ctx) RouterDoc(o RouterOpts) *Doc {
 			s := prim.Schema()
 			if o.Typed && rapid.IntRange(0, 4).Draw(t, "pathvar_ref") == 0 && c.AllowSchema(s, "component") {
 				if r := c.AddSchema(c.CompName("Pv", "pv"), s); c.AllowSchema(r, "path") {
-					s = r
+					s = c.maybeAliasHops(r, "path", "pv")
 				}
 			}
 			p := &Parameter{Name: v, In: "path", Required: true, Schema: s}
